@@ -1,4 +1,5 @@
 (* C14 — Reset makes a used Reader or Writer indistinguishable from a new one. *)
+From V Require Import Flate.Impl Flate.ImplLife Flate.ImplLifeWin Flate.ImplLifeSim Flate.ImplLifeThms.
 From V Require Import Prefix.ReaderImpl Window.Dict Flate.Impl Flate.ImplRel Flate.ImplThms Flate.ImplExamples.
 From V Require Import Window.Dict Window.DictSpec Window.DictThms.
 From V Require Import Base.Prelude Life.Reset Life.Writers.
@@ -56,3 +57,59 @@ Theorem flate_reset_reader_decodes_like_a_new_one :
       f_outOff fin = zlen (concat_bytes obs).
 Proof. exact flate_impl_refines_rfc1951_valid. Qed.
 Print Assumptions flate_reset_reader_decodes_like_a_new_one.
+
+(* flate.Reader at implementation level (Flate/ImplLife.v, per-call correspondence WFLLIFE): for
+   EVERY state - mid-block, failed, closed, after io.EOF; decoder tables, window contents and
+   scratch storage arbitrary - Reset followed by any history of Reads, Closes and further Resets
+   is observed call by call (bytes, errors, offsets, source position) exactly like a NEW Reader
+   whose window buffer has the capacity of the old one: the capacity is the only thing that
+   survives *)
+Theorem flate_reader_reset_as_new : forall st arr data bf fills reads,
+  zlen arr = zlen (d_arr (f_dict st)) ->
+  exists s1 s2, fl_reset st data bf fills reads = Ok s1 /\ fl_new_with arr data bf fills reads = Ok s2 /\
+    forall ops, fst (fl_ops s1 ops) = fst (fl_ops s2 ops).
+Proof. exact fl_reset_as_new. Qed.
+Print Assumptions flate_reader_reset_as_new.
+
+Theorem flate_reader_reset_as_newreader_when_capacity_initial : forall st data bf fills reads,
+  zlen (d_arr (f_dict st)) = initSize ->
+  exists s1 s2, fl_reset st data bf fills reads = Ok s1 /\ fl_new data bf fills reads = Ok s2 /\
+    forall ops, fst (fl_ops s1 ops) = fst (fl_ops s2 ops).
+Proof. exact fl_reset_as_new_fresh. Qed.
+Print Assumptions flate_reader_reset_as_newreader_when_capacity_initial.
+
+(* the capacities a Reader can reach: 4096, 16384, 32768 *)
+Theorem flate_reader_reachable_capacity : forall st, reachable st -> Cap3 (zlen (d_arr (f_dict st))).
+Proof. exact reachable_capacity. Qed.
+Print Assumptions flate_reader_reachable_capacity.
+
+(* at the level of whole streams the capacity does not show either: a Reader reset from ANY state
+   and a new Reader deliver the same bytes and end with the same error, whatever the source scripts
+   and Read schedules (Peek-capable sources: every input; both source kinds: every valid input) *)
+Theorem flate_reader_reset_same_stream_buffered :
+  forall st data fills reads fills' reads' s1 s2 sched1 sched2 obs1 obs2 fin1 fin2 e1 e2,
+  bytes_lt256 data -> d_arr (f_dict st) <> [] ->
+  fl_reset st data true fills reads = Ok s1 -> fl_new data true fills' reads' = Ok s2 ->
+  fl_run s1 sched1 = (obs1, fin1) -> fl_run s2 sched2 = (obs2, fin2) ->
+  run_err obs1 = Some e1 -> run_err obs2 = Some e2 ->
+  concat_bytes obs1 = concat_bytes obs2 /\ e1 = e2.
+Proof. exact fl_reset_same_stream_buffered. Qed.
+Print Assumptions flate_reader_reset_same_stream_buffered.
+
+Theorem flate_reader_reset_same_stream_valid :
+  forall st data bf fills reads fills' reads' s1 s2 sched1 sched2 obs1 obs2 fin1 fin2 e1 e2,
+  bytes_lt256 data -> d_arr (f_dict st) <> [] ->
+  Flate.Spec.ir_err (Flate.Spec.inflate data) = None ->
+  fl_reset st data bf fills reads = Ok s1 -> fl_new data bf fills' reads' = Ok s2 ->
+  fl_run s1 sched1 = (obs1, fin1) -> fl_run s2 sched2 = (obs2, fin2) ->
+  run_err obs1 = Some e1 -> run_err obs2 = Some e2 ->
+  concat_bytes obs1 = concat_bytes obs2 /\ e1 = EEOF /\ e2 = EEOF /\
+  f_inOff fin1 = f_inOff fin2 /\ s_pos (p_src (f_rd fin1)) = s_pos (p_src (f_rd fin2)).
+Proof. exact fl_reset_same_stream_valid. Qed.
+Print Assumptions flate_reader_reset_same_stream_valid.
+
+(* call by call, Reset is NOT NewReader when the window buffer has grown: how many bytes one Read
+   returns differs (a legal short-read difference; witness: 4096+1065 against 5161) *)
+Theorem flate_reader_reset_keeps_capacity_refuted : ~ fl_reset_as_newreader_statement.
+Proof. exact fl_reset_as_newreader_refuted. Qed.
+Print Assumptions flate_reader_reset_keeps_capacity_refuted.
